@@ -356,6 +356,9 @@ pub extern "sysv64" fn memory_read_word(areas: *mut MemoryAreas, addr: u16) -> u
 }
 
 pub fn can_dynarec(addr: usize) -> bool {
-  addr < 0x8000
+  // Only ROM is translated. The last two bytes of each 16KB bank are left to
+  // the interpreter: an instruction starting there may have operand bytes in
+  // the next region, which the translator cannot fetch from its bank slice.
+  addr < 0x8000 && (addr & 0x3fff) < 0x3ffe
 }
 
